@@ -147,6 +147,10 @@ Theorem refuted_stop_before_start_cap : fx_stop_order current = false ->
   exists r, handler_model current envW r = HPanic "app.splitPeriod: makeslice: cap out of range".
 Proof. witness (live "/livesim2/start_1000/stop_0/periods_60/a/M.mpd" "2000000"). Qed.
 
+Theorem refuted_location_parts : fx_location current = false ->
+  exists r, handler_model current envW r = HPanic "app.LiveMPD: nil dereference".
+Proof. witness (live "/livesim2/startrel_-20/a/stoprel_1/M.mpd" "100000"). Qed.
+
 (** With every repair in place none of the witnesses above is a panic or a hang any more. *)
 Definition all_witnesses : list request :=
   [ live "/livesim2/stoprel_x/a/M.mpd" "100000"; live "/livesim2/annexI_a/a/M.mpd" "100000";
@@ -202,7 +206,7 @@ Lemma G_live_example_segment : forall now c, atoi "100000" = Some now ->
   process_url_cfg all_fixed "/livesim2/tsbd_30/periods_60/snr_7/timesubsstpp_en/a/V/45.m4s" now = Ok c -> G_live envW now c.
 Proof.
   intros now c A P. vm_compute in A. inversion A; subst. vm_compute in P. inversion P; subst; clear P A.
-  unfold G_live, cue_ok, small. cbn [c_complete c_codes c_traffic c_timeOffset c_startS c_stopS c_subsDurMS c_contentIdx c_parts].
+  unfold G_live, cue_ok, small. cbn [c_complete c_codes c_traffic c_timeOffset c_startS c_stopS c_subsDurMS c_contentIdx c_parts c_addLocation].
   assert (Q : f_to_int (f_ceil (f_of_int 900 * f_milli)) = 1) by (vm_compute; reflexivity).
   rewrite Q.
   repeat (split; [first [reflexivity | lia | exact I]|]).
